@@ -117,7 +117,7 @@ class IRDen:
         funcs = self._funcs(amounts)
         for s in self.before:
             if isinstance(s, Assignment):
-                store[s.symbol.name] = ev(s.expression, store, funcs)
+                _assign(store, s, funcs)
         return store
 
     def field(self, store, amounts: dict):
@@ -175,10 +175,30 @@ class IRDen:
             for n in self.cnames:
                 funcs[self.cs.find_compartment(n).amount.name] = amounts[n]
         st = dict(store)
+        if UNDEF in st:
+            st[UNDEF] = set(st[UNDEF])
         for s in self.after:
             if isinstance(s, Assignment):
-                st[s.symbol.name] = ev(s.expression, st, funcs)
+                _assign(st, s, funcs)
         return st
+
+
+UNDEF = "__undefined_by_piecewise__"
+
+
+def _assign(store, s, funcs):
+    """store[symbol] = value; a Piecewise without applicable branch leaves the symbol WITHOUT a value on this path:
+    reading it later is an Unbound read, comparing it with a value the text assigns is a mismatch."""
+    from vp.ir_eval import NoBranch
+
+    name = s.symbol.name
+    try:
+        store[name] = ev(s.expression, store, funcs)
+        if UNDEF in store:
+            store[UNDEF].discard(name)
+    except NoBranch:
+        store.pop(name, None)
+        store.setdefault(UNDEF, set()).add(name)
 
 
 def _tryev(e, store):
@@ -659,6 +679,8 @@ def _cmp_vars(names, tstore, istore, where, c, prefix, unstable=()):
             continue
         if name not in tstore:
             continue  # not assigned on this path in the text
+        if name not in istore and name in istore.get(UNDEF, ()):
+            raise Mismatch(f"{where} variable {name}: text {tstore[name]}, model has no value (no branch of its Piecewise applies)")
         if name not in istore:
             # the model object lost a variable the text assigns: only a mismatch if something else needs it; the
             # downstream comparisons (field, F, Y) decide.  Counted.
